@@ -161,4 +161,19 @@ def ddmin(items, still_fails_batch, max_rounds=40):
             break
         else:
             n = min(len(items), n * 2)
+    # chunks are aligned; a final pass slides windows of 4..1 items over the list (e.g. the pair `FROM t`)
+    progress = True
+    while progress and rounds < max_rounds + 12 and len(items) >= 2:
+        progress = False
+        for w in (4, 3, 2, 1):
+            if w >= len(items):
+                continue
+            rounds += 1
+            cands = [items[:a] + items[a + w:] for a in range(0, len(items) - w + 1)]
+            verdicts = still_fails_batch(cands)
+            hit = next((c for c, v in zip(cands, verdicts) if v), None)
+            if hit is not None:
+                items = hit
+                progress = True
+                break
     return items
